@@ -278,7 +278,7 @@ struct String {
     }
 
     inline void StepBack(const SizeT len) noexcept {
-        if (len <= Length()) {
+        if ((len != 0) && (len <= Length())) {
             Char_T     *str     = Storage();
             const SizeT new_len = (Length() - len);
 
